@@ -29,7 +29,7 @@ T = {
          "bit extraction via struct in the harness", "§6 C06"),
  "C07": ("bounded-exhaustive token strings, single-token edit neighbourhood of the corpus, pump families; hard-kill timeouts",
          "Every input of the bounded spaces is parsed in a worker with a CPU-time budget; any outcome other than IR / ParseError / VerifyException, or a budget overrun, is a violation.",
-         "time budget 0.25s + 2ms/char CPU", "§6 C07"),
+         "budget 2 s + 5 ms per character of user-CPU time, measured twice, suspects re-run alone; kill-on-stall watchdog", "§6 C07"),
  "C08": ("exhaustive pairs (and triples on a sub-pool) over a generated attribute pool",
          "Reflexivity, symmetry, transitivity, hash consistency, twin-construction equality and payload-distinguishing inequality are checked on every ordered pair of the pool.",
          "independent payload bits extraction", "§6 C08"),
